@@ -153,6 +153,37 @@ func (x *exec) session() (surprise string) {
 	if st := w.C.State(); st != hsms.SelectedState {
 		return fmt.Sprintf("State() after the select handshake is %v", st)
 	}
+	if x.cs.Kind == "resel-mute" {
+		// the peer deselects, stays deselected for longer than one linktest interval, selects again on
+		// the same connection, and only then goes mute: the session in force is as probed as any other
+		sys := x.nextPeerSys()
+		if !x.in(peer.Ctrl(peer.SDeselectReq, 0xFFFF, 0, 0, sys)) {
+			return ""
+		}
+		if fs := x.read(); len(fs) != 1 || fs[0].SType != peer.SDeselectRsp || fs[0].B3 != 0 {
+			return fmt.Sprintf("expected Deselect.rsp(0), got %v", fs)
+		}
+		x.frameDone()
+		for end := w.Now() + x.ts.LT + x.ts.LT/2; w.Now() < end; {
+			w.Advance(100 * time.Millisecond)
+			for _, f := range x.read() {
+				if f.SType == peer.SLinktestReq { // still probing while deselected: answer
+					_, _ = x.p.Write(peer.Ctrl(peer.SLinktestRsp, 0xFFFF, 0, 0, f.Sys).Bytes())
+					w.Settle()
+				}
+			}
+		}
+		sys = x.nextPeerSys()
+		if !x.in(peer.Ctrl(peer.SSelectReq, 0xFFFF, 0, 0, sys)) {
+			return ""
+		}
+		if fs := x.read(); len(fs) != 1 || fs[0].SType != peer.SSelectRsp || fs[0].B3 != 0 {
+			return fmt.Sprintf("expected Select.rsp(0) to the re-select, got %v", fs)
+		}
+		x.frameDone()
+		x.faulted, x.tF = true, w.Now()
+		return ""
+	}
 	if x.cs.Kind == "mute" { // the peer keeps reading but never says anything again
 		x.faulted, x.tF = true, w.Now()
 		return ""
@@ -244,7 +275,7 @@ func (x *exec) predict() (timer string, at time.Duration) {
 		}
 		return "linktest-T6", lastFrame + ts.LT + ts.T6
 	}
-	if x.cs.Kind == "mute" {
+	if x.cs.Kind == "mute" || x.cs.Kind == "resel-mute" {
 		return idle(x.tLastFrame)
 	}
 	if x.cs.Dir == "in" {
